@@ -133,7 +133,7 @@ def _guess_model(s, timeout_ms):
 
 def _portfolio(s, timeout_ms):
     """z3 is sensitive to term order on nonlinear queries: try (1) the default solver on a
-    quarter of the budget, (2) simplify/solve-eqs/nlsat pipeline, (3) the same assertions
+    short slice of the budget, (2) simplify/solve-eqs/nlsat pipeline on up to half of it, (3) the same assertions
     re-parsed in a fresh context, (4) the default solver on the rest.  Only sat/unsat are
     definite; `unknown` from every engine is reported as unknown."""
     budget = timeout_ms
@@ -151,7 +151,9 @@ def _portfolio(s, timeout_ms):
     try:
         t = z3.Then("simplify", "solve-eqs", "purify-arith", "qfnra-nlsat")
         s2 = t.solver()
-        s2.set("timeout", max(500, min(left(), timeout_ms // 4)))
+        # nlsat decides most nonlinear obligations; it gets half of the budget so that a query it
+        # needs a few seconds for is not lost to machine load
+        s2.set("timeout", max(500, min(left(), timeout_ms // 2)))
         s2.add(s.assertions())
         r = str(s2.check())
         if r in ("sat", "unsat"):
